@@ -7,22 +7,24 @@ claim("C05",
       "re-queued (rewind_in_progress) and when a failure is retried (attempts+1, same first-attempt time); the policy "
       "is consulted with elapsed = now - first attempt and the 1-based failure count, and _ComposableRetryPolicy.next "
       "/ the stop conditions / _to_seconds are proved against their definitions.",
-      "Clock consistency between adapters (get_now vs time.time, DESIGN.md 7) and retry_info() are not under contract; "
-      "floats are mathematical reals.")
+      "That the two timestamps are taken from one clock is a structural obligation on the real functions "
+      "(InternalAsyncioAdapter.get_now returns time.time(), like the failure stamps; fix 1cc26d5), replayed by an "
+      "end-to-end scenario; adapters of other runtimes and retry_info() are not under contract; floats are mathematical "
+      "reals.")
 
 claim("C10",
       "The three places a wait passes through are under contract: InternalContext.wait_for_event (which wait is "
       "registered - id derived from the awaited type AND the requirements unless given -, with which payload, when "
       "TimeoutError is raised, which event is handed out: exception payloads are part of the contract), the reducer "
-      "(_process_add_event_tick: exact type and every requirement must match, other waiters untouched; "
-      "_process_waiter_timeout_tick: only an existing unresolved waiter times out, once) and the snapshot functions "
-      "(waiters keep id, replay event, awaited type, delivered result and the requirements flag across "
-      "serialize/resume). Everything is discharged for all states except the recorded known finding (a second matching "
-      "event re-resolves an already resolved waiter: the step completes twice per wait).",
+      "(_process_add_event_tick: only a waiter that is still waiting - not answered, not timed out - can be answered, "
+      "by an event of exactly the awaited type that meets every requirement, other waiters untouched, an answered "
+      "waiter keeps its event (fix 04b084e); _process_waiter_timeout_tick: only an existing unresolved waiter times "
+      "out, once) and the snapshot functions (waiters keep id, replay event, awaited type, delivered result and the "
+      "requirements flag across serialize/resume). Every obligation is discharged for all states and events.",
       "Rehydration of requirements after a resume (rehydrate_with_ticks) and the step worker that turns WaitingForEvent "
       "into an AddWaiter result are not under contract; un-rehydrated requirements matching any event (DESIGN.md 7, "
-      "C10 ii) is therefore not reported by this check.",
-      category="other")
+      "C10 ii) is therefore not reported by this check; 'waiter_event is published once per waiter id' is covered only "
+      "per tick (AddWaiter of a new id publishes it once).")
 
 claim("C31",
       "Reducer part: a timeout tick publishes WorkflowTimedOutEvent naming exactly the steps with running invocations, "
